@@ -110,7 +110,8 @@ impl RecoverRunner {
             if infos.is_empty() {
                 clean_blocks.push(block);
             } else {
-                evictable_blocks.push(block);
+                // Remember the age of the block (the sequence of its first entry).
+                evictable_blocks.push((infos[0].addr.sequence, block));
             }
 
             for EntryInfo { hash, addr } in infos {
@@ -145,7 +146,12 @@ impl RecoverRunner {
         // Update components.
         indexer.insert_batch(indices);
         sequence.store(latest_sequence + 1, Ordering::Release);
-        block_manager.init(&clean_blocks);
+        // Hand the recovered blocks to the eviction pickers oldest first, the same order in which they became
+        // evictable before the restart. Otherwise a block with newer data can be reclaimed before a block that still
+        // holds older versions of the same keys, and those older versions come back after the next restart.
+        evictable_blocks.sort();
+        let evictable_blocks = evictable_blocks.into_iter().map(|(_, block)| block).collect_vec();
+        block_manager.init(&clean_blocks, &evictable_blocks);
 
         let elapsed = now.elapsed();
         tracing::info!("[recover] finish in {:?}", elapsed);
